@@ -668,6 +668,27 @@ class TplArg(K):
     def lib_tokens(self, r, cnt, env): return ["%s=%s" % (self.n, self.VALS[r % 4][1])]
 
 
+class AssumedRank(K):
+    """const int *v +dimension(..), int n: called with a scalar, a rank-1 and a rank-2 (= F_assumed_rank_max) actual"""
+    nvals = 3
+    decl_options = {"F_assumed_rank_max": 2}
+
+    def yaml(self): return "const int *%s +dimension(..), int n%s" % (self.n, self.n)
+    def cparam(self, lang): return "const int *%s, int n%s" % (self.n, self.n)
+    def body(self, lang):
+        return ['printf(" n%s=i:%%d %s=a:", n%s);' % (self.n, self.n, self.n),
+                '{ int i_; for (i_ = 0; i_ < n%s; i_++) printf("%%d,", %s[i_]); }' % (self.n, self.n)]
+    def fdecl(self):
+        return ["integer(C_INT) :: %s_0" % self.n, "integer(C_INT) :: %s_1(3)" % self.n, "integer(C_INT) :: %s_2(2,2)" % self.n]
+    def fset(self, r):
+        return [["%s_0 = 5" % self.n], ["%s_1 = [6, 7, 8]" % self.n], ["%s_2 = reshape([1, 2, 3, 4], [2, 2])" % self.n]][r % 3]
+    def factual(self, r):
+        return ["%s_0, 1_C_INT" % self.n, "%s_1, 3_C_INT" % self.n, "%s_2, 4_C_INT" % self.n][r % 3]
+    def lib_tokens(self, r, cnt, env):
+        v = [[5], [6, 7, 8], [1, 2, 3, 4]][r % 3]
+        return ["n%s=i:%d" % (self.n, len(v)), "%s=a:%s" % (self.n, "".join("%d," % x for x in v))]
+
+
 GEN_DBLS = ["2.5", "-0.25", "1024.0", "0.0"]
 
 
@@ -760,9 +781,10 @@ RES_DIM3 = ["ialloc3", "iptr3"]
 
 
 class Func:
-    def __init__(self, name, res, args, overload_of=None):
+    def __init__(self, name, res, args, overload_of=None, cpp_if=None):
         self.name, self.res, self.args = name, res, args
         self.overload_of = overload_of
+        self.cpp_if = cpp_if     # macro name: the library function and its wrappers exist only `#ifdef <macro>`
 
     def is_template(self):
         return any(isinstance(a, TplArg) for a in self.args)
@@ -830,6 +852,19 @@ def generic_funcs(cxx, sfx):
     return fs
 
 
+def cppif_spec():
+    """generic names whose members carry preprocessor guards: first member guarded, last member guarded, all members
+    under the same guard (the guard is then promoted to the interface block)"""
+    return [Func("pk", "void", [IntVal("pi")], overload_of="i", cpp_if="HAVE_PK"),
+            Func("pk", "void", [DblVal("pd")], overload_of="d"),
+            Func("pk", "void", [IntVal("pj"), IntVal("pk2")], overload_of="ii"),
+            Func("qk", "void", [DblVal("qd")], overload_of="d"),
+            Func("qk", "void", [IntVal("qi")], overload_of="i", cpp_if="HAVE_PK"),
+            Func("rk", "void", [IntVal("ri")], overload_of="i", cpp_if="HAVE_PK"),
+            Func("rk", "void", [DblVal("rd")], overload_of="d", cpp_if="HAVE_PK"),
+            Func("plain", "int", [IntVal("pp")])]
+
+
 def fixed_spec(cxx):
     """one function per argument kind and result kind (always run)"""
     funcs = []
@@ -846,6 +881,7 @@ def fixed_spec(cxx):
     for i, res in enumerate(RES_DIM3):
         funcs.append(Func("rf%d" % i, res, [DimArg("fa%d" % i), DimArg2("fb%d" % i), DimArg3("fc%d" % i)]))
     funcs.append(Func("gvoid", "void", [GenVoid("addr")]))
+    funcs.append(Func("arnk", "int", [AssumedRank("av")]))     # calls at rank 0, 1 and F_assumed_rank_max
     # character arguments mixed with kinds that have no `_cfi` entry: with F_CFI=true these take the bufferify
     # statements inside the CFI function; same trace required as with F_CFI=false
     funcs.append(Func("mixp", "void", [CstrIn("ms"), PtrPtrOut("mp"), CstrOut("mo")]))
@@ -885,6 +921,13 @@ def yaml_text(lib, funcs, cxx, options):
             dd = {"decl": "template<typename T> " + decl, "cxx_template": [{"instantiation": "<int>"}, {"instantiation": "<double>"}]}
         if f.generic_list():
             dd["fortran_generic"] = f.generic_list()
+        if f.cpp_if:
+            dd["cpp_if"] = "ifdef " + f.cpp_if
+        opts_f = {}
+        for a in f.args:
+            opts_f.update(getattr(a, "decl_options", {}))
+        if opts_f:
+            dd["options"] = opts_f
         if any(getattr(a, "needs_type_defines", False) for a in f.args):
             dd["fstatements"] = {"c": {"c_helper": "ShroudTypeDefines"}}   # SH_TYPE_ codes into types<lib>.h
         decls.append(dd)
@@ -917,7 +960,12 @@ def lib_sources(lib, funcs, cxx):
         rt = "void" if f.res == "void" else RESULTS[f.res][2]
         params = ", ".join(a.cparam("cxx" if cxx else "c") for a in f.args) or ("" if cxx else "void")
         tpl = "template<typename T> " if f.is_template() else ""
+        if f.cpp_if:
+            hdr.append("#ifdef " + f.cpp_if)
+            src.append("#ifdef " + f.cpp_if)
         hdr.append("%s%s %s(%s);" % (tpl, rt, f.name, params))
+        if f.cpp_if:
+            hdr.append("#endif")
         params_def = re.sub(r" = -?\d+", "", params)
         src.append("%s%s %s(%s)\n{" % (tpl, rt, f.name, params_def))
         src.append("  static int cnt = -1; cnt++;")
@@ -935,6 +983,8 @@ def lib_sources(lib, funcs, cxx):
         if f.is_template():
             for t in ("int", "double"):
                 src.append("template %s %s<%s>(%s);" % (rt, f.name, t, params_def.replace("T ", t + " ", 1)))
+        if f.cpp_if:
+            src.append("#endif")
     hdr.append("#endif")
     return "\n".join(hdr) + "\n", "\n".join(src) + "\n"
 
@@ -1016,6 +1066,8 @@ def driver_source(lib, funcs):
         vis = [a for a in f.args if a.visible]
         if omit:
             vis = vis[:len(vis) - omit]
+        if f.cpp_if:
+            body.append("#ifdef " + f.cpp_if)
         for a in vis:
             body += a.fset(r)
         actuals = ", ".join(a.factual(r) for a in vis)
@@ -1032,16 +1084,20 @@ def driver_source(lib, funcs):
             body += a.fprint()
         body.append("write(*,'(A)') ''")
         body.append("flush(6)")
+        if f.cpp_if:
+            body.append("#endif")
     src = ["module drv_helpers", "contains", HELPERS, "end module drv_helpers", "program drv", "use iso_c_binding",
            "use %s_mod" % lib, "use drv_helpers", "implicit none"] + decl + body + ["end program drv"]
     return "\n".join(src) + "\n"
 
 
-def expected_trace(funcs):
+def expected_trace(funcs, macros=()):
     out = []
     cnts = {}
     for i, r, omit in call_plan(funcs):
         f = funcs[i]
+        if f.cpp_if and f.cpp_if not in macros:
+            continue
         cnt = cnts.get(i, -1) + 1
         cnts[i] = cnt
         args = list(f.args)
@@ -1100,15 +1156,16 @@ def asan_flags(work):
     return _ASAN["f"]
 
 
-def build_and_run(d, lib, cxx, san):
+def build_and_run(d, lib, cxx, san, macros=()):
     """compile everything in d; returns (stage, ok, output)"""
     cc = "g++" if cxx else "gcc"
     ext = ".cpp" if cxx else ".c"
     srcs = [f for f in sorted(os.listdir(d)) if f.endswith(ext)]
     fsrcs = [f for f in sorted(os.listdir(d)) if f.endswith(".f") and f.startswith("wrapf")]
-    cmds = [[cc, "-g", "-O0", "-I."] + san + ["-c"] + srcs]
+    defs = ["-D" + m for m in macros]
+    cmds = [[cc, "-g", "-O0", "-I."] + defs + san + ["-c"] + srcs]
     # module order: wrappers, then driver
-    cmds.append(["gfortran", "-g", "-O0", "-ffree-form", "-ffree-line-length-none", "-cpp"] + san + ["-c"] + fsrcs + ["driver.f90"])
+    cmds.append(["gfortran", "-g", "-O0", "-ffree-form", "-ffree-line-length-none", "-cpp"] + defs + san + ["-c"] + fsrcs + ["driver.f90"])
     objs = [s[:-len(ext)] + ".o" for s in srcs] + [f[:-2] + ".o" for f in fsrcs] + ["driver.o"]
     cmds.append(["gfortran"] + san + objs + (["-lstdc++"] if cxx else []) + ["-o", "drv"])
     for c in cmds:
@@ -1146,7 +1203,7 @@ def first_diff(exp, got):
 KIND_OF = {
     "IntVal": ["native"], "DblVal": ["native"], "DefInt": ["native"], "DimArg": ["native"], "DimArg2": ["native"], "DimArg3": ["native"],
     "IntOut": ["native"], "IntInout": ["native"], "IntRefOut": ["native"], "HiddenOut": ["native"], "ArrIn": ["native"],
-    "ArrInout": ["native"], "ArrOut": ["native"], "GenDbl": ["native"], "GenArr": ["native"], "TplArg": ["native"], "GenVoid": ["native"],
+    "ArrInout": ["native"], "ArrOut": ["native"], "AssumedRank": ["native"], "GenDbl": ["native"], "GenArr": ["native"], "TplArg": ["native"], "GenVoid": ["native"],
     "BoolVal": ["boolIn"], "BoolOut": ["boolOut"], "BoolInout": ["boolInout"],
     "CstrIn": ["charIn"], "CstrOut": ["charOut"], "CstrInout": ["charInout"], "ImplText": ["charInout"],
     "StringIn": ["stringIn"], "StringOut": ["stringOut"], "StringInout": ["stringInout"],
@@ -1177,9 +1234,9 @@ def _count_kinds(funcs, cfi):
             KIND_RUNS["%s/%s" % (KIND_OF_RES[f.res], "cfi" if cfi else "buf")] += 1
 
 
-def check_library(ctx, work, tag, lib, funcs, cxx, configs, workers=8, force=False):
+def check_library(ctx, work, tag, lib, funcs, cxx, configs, workers=8, force=False, macros=()):
     """configs: list of (F_CFI, debug).  Returns number of configurations run."""
-    exp = expected_trace(funcs)
+    exp = expected_trace(funcs, macros)
     san = asan_flags(work)
     jobs = []
     for cfi, dbg in configs:
@@ -1187,7 +1244,7 @@ def check_library(ctx, work, tag, lib, funcs, cxx, configs, workers=8, force=Fal
         jobs.append((d, cfi, dbg))
 
     funcs_cfi = [f for f in funcs if force or f.cfi_ok()]
-    exp_cfi = expected_trace(funcs_cfi)
+    exp_cfi = expected_trace(funcs_cfi, macros)
     all_funcs, exp_all = funcs, exp
 
     def one(job):
@@ -1195,14 +1252,14 @@ def check_library(ctx, work, tag, lib, funcs, cxx, configs, workers=8, force=Fal
         y, rc, out = generate(d, lib, funcs_cfi if cfi else all_funcs, cxx, {"F_CFI": bool(cfi), "debug": bool(dbg)})
         if rc != 0:
             return job, y, "shroud", False, out[-2000:]
-        stage, ok, out = build_and_run(d, lib, cxx, san)
+        stage, ok, out = build_and_run(d, lib, cxx, san, macros)
         return job, y, stage, ok, out
 
     with ThreadPoolExecutor(max_workers=workers) as ex:
         results = list(ex.map(one, jobs))
     for (d, cfi, dbg), y, stage, ok, out in results:
         ctx.count(1)
-        cfgname = {"language": "c++" if cxx else "c", "F_CFI": bool(cfi), "debug": bool(dbg)}
+        cfgname = {"language": "c++" if cxx else "c", "F_CFI": bool(cfi), "debug": bool(dbg), "defined_macros": list(macros)}
         if stage != "run":
             # which function?  C05 owns compilability; here it is reported because the call cannot be made at all
             m = re.search(r"(fn\d+|k\d+|r\d+|dflt|ov)\w*", out or "")
